@@ -8,10 +8,20 @@ BOUNDARY_SIZES = (0, 1, 2, 125, 126, 127, 128, 65535, 65536, 65537)
 BIG_SIZES = (131077, 200003)
 
 
+def mark(name):
+    """marker case: the enumerated block `name` ends here (passed to every shard)"""
+    return dict(kind='__mark__', name=name)
+
+
 def shard(it, i, n):
-    for k, x in enumerate(it):
+    k = 0
+    for x in it:
+        if isinstance(x, dict) and x.get('kind') == '__mark__':
+            yield x
+            continue
         if k % n == i:
             yield x
+        k += 1
 
 
 # ------------------------------------------------------------------ payloads
